@@ -10,7 +10,7 @@ import vlib
 from checks import c10 as common
 
 CRATE = common.CRATE
-GROUPS = ["find", "match", "matchstr,tight", "ends", "path"]
+GROUPS = ["find", "match", "matchstr,tight", "ends", "path", "bytes"]
 
 
 def setup():
@@ -40,7 +40,7 @@ def run(ck, replay=None):
         exe = os.path.join(b[prof], "c11")
         for i in range(nsh):
             add("native", "%s exh L=%d U=%d shard=%d/%d" % (prof, L, U, i, nsh),
-                dict(argv=[exe, "exh", str(seed), "0", str(L), str(nsh), str(i), "find,match,matchstr,ends,path", str(U)],
+                dict(argv=[exe, "exh", str(seed), "0", str(L), str(nsh), str(i), "find,match,matchstr,ends,path,bytes", str(U)],
                      timeout=7000))
         for i in range(rand_sh):
             add("native", "%s rand seed=%d" % (prof, seed * 1000 + i),
@@ -60,13 +60,14 @@ def run(ck, replay=None):
     # thorough: all of them) + a drawn sample of the length <= 5 domain + short random strings
     if common.miri_warm(ck, "c11"):
         #        group            modulus  quick jobs  path-U
-        mplan = [("find", 28, 4, 0), ("match", 14, 2, 0), ("matchstr,tight", 28, 2, 0), ("ends", 14, 3, 0), ("path", 36, 5, 4)]
+        mplan = [("find", 28, 4, 0), ("match", 14, 2, 0), ("matchstr,tight", 28, 2, 0), ("ends", 14, 3, 0), ("path", 36, 5, 4),
+                 ("bytes", 12, 2, 0)]
         for g, mod, qjobs, U in mplan:
             for i in range(qjobs if quick else mod):
                 add("miri", "miri exh L=3 ops=%s res=%d/%d" % (g, i, mod),
                     common.miri_job("c11", ["exh", seed, 0, 3, mod, i, g, U], 7000))
             if not quick:
-                smod = 3700 if g in ("find", "matchstr,tight", "path") else 1850
+                smod = 3700 if g in ("find", "matchstr,tight", "path") else (600 if g == "bytes" else 1850)
                 for i in range(8):
                     add("miri", "miri exh L=5 sample ops=%s res=%d mod=%d" % (g, i, smod),
                         common.miri_job("c11", ["exh", seed, 0, 5, smod, i, g, 8], 7000))
@@ -100,12 +101,19 @@ def run(ck, replay=None):
               "and for a double separator at the split point, root for a separator at index 0 (a double separator elsewhere: "
               "None or the split are both accepted); path_file_name is None when nothing follows the last separator "
               "(without any separator: None or the whole string are both accepted); path_join only normalises the boundary")
-    ck.assume("needles passed to find_buf and text passed to path_join_fmt are NUL-free (a NUL inside them has no byte-string "
-              "definition in the statement)")
+    ck.assume("find_buf with caller bytes that contain NUL / 0xFF (needles over {00,a,'/',FF}, incl. needles one longer than the "
+              "content): the definition observed on HEAD 91549aa is 'first occurrence in the haystack slice including its "
+              "terminator, None if longer than that slice'; for needles containing NUL a search over the content only (None) is "
+              "accepted too. Every such search runs twice on a haystack that is a sub-slice of a larger buffer, once followed by "
+              "the bytes the needle would want next and once by different bytes: differing answers are "
+              "<op>/result-depends-on-memory-after-haystack; the exactly-sized run lets ASan/Miri report the over-read itself. "
+              "Text passed to path_join_fmt stays NUL-free here (C10 covers NUL there)")
     ck.assume("Miri and ASan stop at their first report: later cases of that job are not run; jobs are per operation group")
     return ("all ordered pairs over {a,b,'/','.'} up to the stated length (including empty needle/haystack, needle longer than "
             "haystack, match at the very end) and random strings up to 8 KiB with needles planted at start/middle/end, "
-            "near-miss needles (last or first byte changed), empty, longer-than-haystack and single-byte needles; each "
+            "near-miss needles (last or first byte changed), empty, longer-than-haystack and single-byte needles, plus a byte-needle pass "
+            "for find_buf / match_up_to_str (needles over {00,a,'/',FF} starting with / containing / ending in NUL, the terminator "
+            "position, run twice with different memory behind the haystack); each "
             "operation compared with the naive &[u8] reference under catch_unwind; match_up_to_str's &str argument is "
             "followed in memory by self's continuation so an over-read lengthens the match; parent/file-name/re-join "
             "chains; native debug+release, ASan, Miri sample. distinct = (operation, length class, operand relation, "
